@@ -549,7 +549,11 @@ func (p *Parser) parseOption(s *parseState, name string, option *Option, canarg 
 			err = option.Set(&arg)
 		}
 	} else if option.OptionalArgument {
-		option.empty()
+		// Only the first explicit occurrence replaces previous contents;
+		// values given by earlier occurrences must be kept.
+		if option.clearReferenceBeforeSet {
+			option.empty()
+		}
 
 		for _, v := range option.OptionalValue {
 			err = option.Set(&v)
